@@ -40,7 +40,17 @@ def run(chk):
     rng = core.Rng(chk.seed * 7919 + 1)
     cases = S.generate(rng, N[chk.tier])
 
+    def uids(tops):
+        out = []
+        for t in tops.values():
+            out.append(t[0]["uid"])
+            out.extend(uids(t[3]))
+        return out
+
     def oracle(c, r):
+        u = uids(c["desc"][3])
+        if len(u) != len(set(u)) and r[0] == "err" and r[1] == "ValueError":
+            return None          # two variants with one UID: not a forest the library agrees to write
         if r[0] != "ok":
             return "a valid compose description could not be written: %r" % (r,)
         text, back = r[1]
